@@ -125,3 +125,30 @@ void h_C05_send_evrrul(void)
 	}
 	SENTINEL("send_evrrul");
 }
+
+/* ---- instant_soup: an RDATE/EXDATE value that carries its own TZID is
+ * converted to UTC with ITS zone, not with the zone of DTSTART */
+#if !defined REPLAY
+static echs_tzob_t g_utc_zone;
+static unsigned g_utc_calls;
+echs_instant_t echs_instant_utc(echs_instant_t i, echs_tzob_t z) { g_utc_zone = z; g_utc_calls++; return echs_instant_detach_tzob(i); }
+#endif
+void h_C02_instant_soup(void)
+{
+	IN(uint64_t, water_u);
+	IN(uint64_t, broth_u);
+	IN(uint32_t, z);	/* zone of DTSTART */
+	IN_RANGE(int, eof, -50400, 50400);
+	echs_instant_t water = {.u = water_u}, broth = {.u = broth_u};
+	ASSUME(!echs_instant_all_day_p(water));
+	g_utc_calls = 0U;
+	echs_instant_t r = instant_soup(broth, water, (echs_tzob_t)z, eof);
+	echs_tzob_t own = echs_instant_tzob(water);
+	if (own) {
+		ASSERT(g_utc_calls == 1U && g_utc_zone == own, "a timed RDATE/EXDATE value with its own TZID is converted with that zone, whatever the zone of DTSTART");
+		if (own != (echs_tzob_t)z) { SENTINEL("instant_soup other zone"); }
+	} else {
+		ASSERT(g_utc_calls == 0U && r.u == water.u, "a value without TZID is taken as it is (UTC)");
+	}
+	SENTINEL("instant_soup");
+}
